@@ -36,14 +36,26 @@ def gen_case(rng):
     stoch = rng.random() < 0.15
     if stoch:
         for tj in trajs: tj["times"] = list(trajs[0]["times"])       # the stochastic likelihood is exercised on one common grid
-    return {"meas": meas, "p": p, "trajs": trajs, "thetas": thetas, "seed": rng.randint(1, 2**31), "stochastic": stoch}
+    return {"meas": meas, "p": p, "trajs": trajs, "thetas": thetas, "seed": rng.randint(1, 2**31), "stochastic": stoch,
+            "variant": "incremental" if rng.random() < 0.3 else "at_once"}
 
 def gen_cases(seed, tier):
     rng = random.Random(seed * 4001 + 15); n = 60 if tier == "quick" else 800
     return [gen_case(rng) for _ in range(n)]
 
-def _model():
+def _model(variant="at_once", reference=False):
     from bioscrape.types import Model
+    if variant == "incremental" and not reference:
+        # built step by step and never initialised before it is handed over: species C has never been given a value (it is 0 once the
+        # model is initialised), and the per-trajectory initial conditions may omit it  (seeded change S3_C15)
+        M = Model(species=["A", "B"], reactions=[(["A"], ["B"], "massaction", {"k": "k1"})], parameters=[("k1", 0.6), ("k2", 0.3), ("k3", 0.05)],
+                  initial_condition_dict={"A": 5.0, "B": 1.0})
+        M.create_reaction(["B"], ["C"], "massaction", {"k": "k2"}); M.create_reaction(["A", "C"], ["A"], "massaction", {"k": "k3"})
+        return M
+    if variant == "incremental":
+        return Model(species=["A", "B", "C"], reactions=[(["A"], ["B"], "massaction", {"k": "k1"}), (["B"], ["C"], "massaction", {"k": "k2"}),
+                                                         (["A", "C"], ["A"], "massaction", {"k": "k3"})],
+                     parameters=[("k1", 0.6), ("k2", 0.3), ("k3", 0.05)], initial_condition_dict={"A": 5.0, "B": 1.0, "C": 0.0})
     return Model(species=["A", "B", "C"], reactions=[(["A"], ["B"], "massaction", {"k": "k1"}), (["B"], ["C"], "massaction", {"k": "k2"}),
                                                      (["A", "C"], ["A"], "massaction", {"k": "k3"})],
                  parameters=[("k1", 0.6), ("k2", 0.3), ("k3", 0.05)], initial_condition_dict={"A": 5.0, "B": 1.0, "C": 0.5})
@@ -51,7 +63,7 @@ def _model():
 def _setup(case, meas, trajs, stochastic=False):
     import pandas as pd
     from bioscrape.inference_setup import InferenceSetup
-    M = _model()
+    M = _model(case.get("variant", "at_once"))
     frames = []
     for tj in trajs:
         d = {"time": tj["times"]}; d.update({m: tj["data"][m] for m in tj["data"]}); frames.append(pd.DataFrame(d))
@@ -70,7 +82,7 @@ def _spec_cost(case, meas, trajs, theta):
     if not (0.0 <= theta["k1"] <= 5.0): return float("-inf")
     lp = math.log(1 / 5.0); err = 0.0
     for tj in trajs:
-        M = _model(); M.set_params(dict(theta)); M.set_params(dict(tj["cond"])); M.set_species(dict(tj["x0"]))
+        M = _model(case.get("variant", "at_once"), reference=True); M.set_params(dict(theta)); M.set_params(dict(tj["cond"])); M.set_species(dict(tj["x0"]))
         res = py_simulate_model(np.array(tj["times"]), Model=M, stochastic=False, return_dataframe=True)
         for m in meas:
             for t in range(len(tj["times"])): err += abs(tj["data"][m][t] - float(res[m][t])) ** case["p"]
